@@ -1,6 +1,7 @@
 package comet
 
 import (
+	"errors"
 	"fmt"
 	"sync"
 	"sync/atomic"
@@ -60,7 +61,7 @@ func newMemtable(vecIdx VectorIndex, txtIdx TextIndex, metaIdx MetadataIndex, si
 //   - error: Error if add fails or memtable is frozen
 func (m *memtable) add(vector []float32, text string, metadata map[string]interface{}) (uint32, error) {
 	if m.frozen.Load() {
-		return 0, fmt.Errorf("memtable is frozen")
+		return 0, errMemtableFrozen
 	}
 
 	m.mu.Lock()
@@ -92,7 +93,7 @@ func (m *memtable) add(vector []float32, text string, metadata map[string]interf
 //   - error: Error if add fails or memtable is frozen
 func (m *memtable) addWithID(id uint32, vector []float32, text string, metadata map[string]interface{}) error {
 	if m.frozen.Load() {
-		return fmt.Errorf("memtable is frozen")
+		return errMemtableFrozen
 	}
 
 	m.mu.Lock()
@@ -236,6 +237,9 @@ func (m *memtable) flush() (HybridSearchIndex, error) {
 	return m.index, nil
 }
 
+// errMemtableFrozen is returned by a memtable that has been frozen for flushing.
+var errMemtableFrozen = errors.New("memtable is frozen")
+
 // memtableQueue manages a queue of memtables for write ordering.
 //
 // Thread-safety: All methods are safe for concurrent use.
@@ -273,34 +277,49 @@ func newMemtableQueue(vecIdx VectorIndex, txtIdx TextIndex, metaIdx MetadataInde
 // add adds a document to the active memtable.
 // If the memtable doesn't have room, it rotates to a new one.
 func (mq *memtableQueue) add(vector []float32, text string, metadata map[string]interface{}) (uint32, error) {
-	mq.mu.Lock()
+	for {
+		mq.mu.Lock()
 
-	// Check if we need to rotate
-	if !mq.mutable.hasRoomFor(vector, text, metadata) {
-		mq.rotateNoLock()
+		// Check if we need to rotate
+		if !mq.mutable.hasRoomFor(vector, text, metadata) {
+			mq.rotateNoLock()
+		}
+
+		mutable := mq.mutable
+		mq.mu.Unlock()
+		verifPoint("mq.add.picked")
+
+		id, err := mutable.add(vector, text, metadata)
+		if errors.Is(err, errMemtableFrozen) {
+			// Another goroutine rotated the queue between picking the memtable
+			// and writing to it: pick the new mutable memtable and try again.
+			continue
+		}
+		return id, err
 	}
-
-	mutable := mq.mutable
-	mq.mu.Unlock()
-	verifPoint("mq.add.picked")
-
-	return mutable.add(vector, text, metadata)
 }
 
 // addWithID adds a document with a specific ID to the active memtable.
 func (mq *memtableQueue) addWithID(id uint32, vector []float32, text string, metadata map[string]interface{}) error {
-	mq.mu.Lock()
+	for {
+		mq.mu.Lock()
 
-	// Check if we need to rotate
-	if !mq.mutable.hasRoomFor(vector, text, metadata) {
-		mq.rotateNoLock()
+		// Check if we need to rotate
+		if !mq.mutable.hasRoomFor(vector, text, metadata) {
+			mq.rotateNoLock()
+		}
+
+		mutable := mq.mutable
+		mq.mu.Unlock()
+		verifPoint("mq.add.picked")
+
+		err := mutable.addWithID(id, vector, text, metadata)
+		if errors.Is(err, errMemtableFrozen) {
+			// Rotated in between (see add): retry on the new mutable memtable.
+			continue
+		}
+		return err
 	}
-
-	mutable := mq.mutable
-	mq.mu.Unlock()
-	verifPoint("mq.add.picked")
-
-	return mutable.addWithID(id, vector, text, metadata)
 }
 
 // Rotate creates a new mutable memtable and freezes the old one.
